@@ -6,6 +6,7 @@ Open Scope Z_scope.
 
 
 (* ------------------------------------------------------------------ generic *)
+Arguments zlen : simpl never.
 Lemma zlen_app {A} (l1 l2 : list A) : zlen (l1 ++ l2) = zlen l1 + zlen l2.
 Proof. unfold zlen. rewrite app_length. lia. Qed.
 Lemma zlen_cons {A} (x : A) l : zlen (x :: l) = 1 + zlen l.
@@ -15,6 +16,7 @@ Lemma zlen_nonneg {A} (l : list A) : 0 <= zlen l. Proof. unfold zlen. lia. Qed.
 
 Definition b2z (b : bool) : Z := if b then 1 else 0.
 Definition cnt (f : kont -> bool) (l : list kont) : Z := zlen (filter f l).
+Arguments cnt : simpl never.
 Lemma cnt_nil f : cnt f [] = 0. Proof. reflexivity. Qed.
 Lemma cnt_cons f k l : cnt f (k :: l) = b2z (f k) + cnt f l.
 Proof. unfold cnt. cbn [filter]. destruct (f k); cbn [b2z]; rewrite ?zlen_cons; lia. Qed.
@@ -491,28 +493,28 @@ Proof.
       rewrite !cnt_app, !cnt_cons, !cnt_nil; cbn [b2z is_cstart is_cfail is_dwake is_bstart is_bwake]; lia.
   - (* EConnOk *)
     destruct (alookup cid _) as [i|] eqn:El; inversion St; subst; clear St.
-    destruct I as [A B]. pose proof (aremove_len _ _ _ El) as L.
+    destruct I as [A B]. pose proof (aremove_len _ _ _ El) as L. cbn in L.
     split; [|intros Er; specialize (B Er)]; unfold InvA, InvB, opening, lag, nbroken in *; cbn;
       rewrite !cnt_app, !cnt_cons, !cnt_nil, ?zlen_cons; cbn [b2z is_cstart is_cfail is_dwake is_bstart is_bwake]; lia.
   - (* EConnFail *)
     destruct (alookup cid _) as [i|] eqn:El; inversion St; subst; clear St.
-    destruct I as [A B]. pose proof (aremove_len _ _ _ El) as L.
+    destruct I as [A B]. pose proof (aremove_len _ _ _ El) as L. cbn in L.
     split; [|intros Er; specialize (B Er)]; unfold InvA, InvB, opening, lag, nbroken in *; cbn;
       rewrite !cnt_app, !cnt_cons, !cnt_nil; cbn [b2z is_cstart is_cfail is_dwake is_bstart is_bwake]; lia.
   - (* EDiscOk *)
     destruct (alookup did _) as [[c a]|] eqn:El; inversion St; subst; clear St.
     destruct I as [A B]. pose proof (remove1_len _ _ (DO _ _ _ El)) as L.
-    pose proof (aremove_filter is_binfl _ _ _ El) as F.
+    pose proof (aremove_filter is_binfl _ _ _ El) as F. cbn in L, F.
     split; [|intros Er; specialize (B Er)]; unfold InvA, InvB, opening, lag, nbroken in *; cbn;
       rewrite !cnt_app, !cnt_cons, !cnt_nil; cbn [b2z is_cstart is_cfail is_dwake is_bstart]; try lia.
-    rewrite F. unfold is_binfl. cbn [snd is_bwake]. destruct a as [to|p [|]]; cbn [b2z]; lia.
+    rewrite F. destruct a as [to|p [|]]; cbn [is_binfl snd is_bwake b2z]; lia.
   - (* EDiscFail *)
     destruct (alookup did _) as [[c a]|] eqn:El; inversion St; subst; clear St.
     destruct I as [A B]. pose proof (remove1_len _ _ (DO _ _ _ El)) as L.
-    pose proof (aremove_filter is_binfl _ _ _ El) as F.
+    pose proof (aremove_filter is_binfl _ _ _ El) as F. cbn in L, F.
     split; [|intros Er; specialize (B Er)]; unfold InvA, InvB, opening, lag, nbroken in *; cbn;
       rewrite !cnt_app, !cnt_cons, !cnt_nil; cbn [b2z is_cstart is_cfail is_dwake is_bstart]; try lia.
-    rewrite F. unfold is_binfl. cbn [snd is_bwake]. destruct a as [to|p [|]]; cbn [b2z]; lia.
+    rewrite F. destruct a as [to|p [|]]; cbn [is_binfl snd is_bwake b2z]; lia.
   - (* ETick *)
     destruct (tick_armed _); inversion St; subst. eapply keepA_Inv1; [|exact I].
     apply kA_tick. eapply sameA_keepA; [|apply keepA_refl]. sameA_tac.
@@ -523,7 +525,7 @@ Proof.
     cbn in St. destruct (ready s) as [|k r] eqn:Er; inversion St; subst; clear St.
     set (s0 := set_ready r (set_outs [] s)).
     assert (Hh : harmless k = true -> Inv1 s0) by (intros; eapply Inv1_pop; eauto).
-    destruct k; cbn [run_kont].
+    destruct k as [t d|t i ok|i|cid i res nodb|f c to|i c p br|did c a ok|t d|t i acc ok|t|t]; cbn [run_kont].
     + eapply keepA_Inv1; [apply kA_acquire_start, keepA_refl|apply Hh; reflexivity].
     + eapply keepA_Inv1; [apply kA_acquire_wake, keepA_refl|apply Hh; reflexivity].
     + (* KConnStart *)
@@ -540,29 +542,36 @@ Proof.
         { destruct I as [A B]. split; [|intros Ee; specialize (B Ee)];
             unfold InvA, InvB, opening, lag, nbroken in *; cbn; rewrite Er, !cnt_cons in *;
             cbn [b2z is_cstart is_cfail is_dwake is_bstart is_bwake] in *; lia. }
-        set (b := get_blk b0 s1). set (s2 := upd _ s1).
+        set (s2 := upd _ s1).
         assert (K2 : keepA s1 s2) by (apply kA_upd, keepA_refl).
         match goal with |- Inv1 (upd _ (if ?x then _ else _)) => destruct x end.
         -- eapply keepA_Inv1; [|exact I1]. apply kA_upd, kA_abort_waiters, K2.
         -- pose proof (keepA_Inv1 _ _ K2 I1) as [A2 B2].
-           pose proof (sched_new_conn_fields b0 s2) as (f1 & f2 & f3 & f4 & f5 & f6 & f7). cbn zeta in *.
-           assert (C2 : cur s2 = cur s0 - 1) by reflexivity.
+           pose proof (sched_new_conn_fields i s2) as (f1 & f2 & f3 & f4 & f5 & f6 & f7). cbn zeta in *.
+           assert (C2 : cur s2 = cur s - 1) by reflexivity.
+           assert (R2 : ready s2 = r) by reflexivity.
+           assert (D2 : infl_disc s2 = infl_disc s) by reflexivity.
+           assert (M2 : maxc s2 = maxc s) by reflexivity.
+           assert (E2 : err s2 = err s) by reflexivity.
            destruct I as [A B].
-           split; [|intros Ee; cbn in Ee; rewrite f7 in Ee; specialize (B2 Ee); specialize (B Ee)];
-             unfold InvA, InvB, opening, lag, nbroken in *; cbn; rewrite ?f1, ?f2, ?f3, ?f4, ?f5, ?f6;
-             rewrite !cnt_app, !cnt_cons, !cnt_nil; cbn [b2z is_cstart is_cfail is_dwake is_bstart is_bwake];
-             cbn in A, B; rewrite Er, !cnt_cons in A, B; cbn [b2z is_cstart is_cfail is_dwake is_bstart is_bwake] in A, B;
-             try lia.
+           unfold InvA, InvB, opening, lag, nbroken in A, B. rewrite Er, !cnt_cons in A, B.
+           cbn [b2z is_cstart is_cfail is_dwake is_bstart is_bwake] in A, B.
+           split; [|intros Ee; assert (Ee2 : err (sched_new_conn i s2) = false) by exact Ee;
+                    rewrite f7, E2 in Ee2; specialize (B Ee2)];
+             unfold InvA, InvB, opening, lag, nbroken in *;
+             cbn [upd set_blocks cur maxc g_open infl_conn infl_disc ready];
+             rewrite ?f1, ?f2, ?f3, ?f4, ?f5, ?f6, ?R2, ?D2, ?M2, ?C2 in *;
+             rewrite !cnt_app, !cnt_cons, !cnt_nil; cbn [b2z is_cstart is_cfail is_dwake is_bstart is_bwake]; lia.
     + (* KTransStart *)
       pose proof (Hh eq_refl) as [A B]. split; [|intros Ee; specialize (B Ee)];
-        unfold InvA, InvB, opening, lag, nbroken in *; cbn in *; rewrite ?filter_app, ?zlen_app; cbn; try lia.
+        unfold InvA, InvB, opening, lag, nbroken in *; cbn in *; rewrite ?filter_app, ?zlen_app; cbn; rewrite ?zlen_nil; lia.
     + (* KDiscStart *)
       unfold discard_start. destruct (alookup c _) as [[|]|]; try (split; [|cbn; discriminate]).
       1,3: (destruct I as [A _]; unfold InvA, opening, lag in *; cbn; rewrite Er, !cnt_cons in A; cbn [b2z is_cstart is_cfail is_dwake] in A; lia).
       destruct I as [A B]. split; [|intros Ee; specialize (B Ee)];
         unfold InvA, InvB, opening, lag, nbroken in *; cbn in *; rewrite Er, !cnt_cons in *;
         rewrite ?filter_app, ?zlen_app; cbn [filter is_binfl snd];
-        destruct broken; cbn [b2z is_cstart is_cfail is_dwake is_bstart is_bwake zlen length app] in *; try lia.
+        destruct br; cbn [b2z is_cstart is_cfail is_dwake is_bstart is_bwake app] in *; rewrite ?zlen_cons, ?zlen_nil; lia.
     + (* KDiscWake *)
       destruct I as [A B]. unfold disconnect_wake.
       destruct a as [to|[t|] br]; (split; [|intros Ee; specialize (B Ee)]);
@@ -573,4 +582,701 @@ Proof.
     + eapply keepA_Inv1; [apply kA_prune_wake, keepA_refl|apply Hh; reflexivity].
     + eapply keepA_Inv1; [apply kA_gather_cb, keepA_refl|apply Hh; reflexivity].
     + eapply keepA_Inv1; [apply kA_emit, keepA_refl|apply Hh; reflexivity].
+Qed.
+
+(* ================================================================== aspect 2: ownership *)
+(* ------------------------------------------------------------------ multiset counting *)
+Section Occ.
+  Context {X : Type} (dec : forall a b : X, {a = b} + {a <> b}).
+  Definition occ (x : X) (l : list X) : nat := count_occ dec l x.
+  Lemma occ_nil x : occ x [] = 0%nat. Proof. reflexivity. Qed.
+  Lemma occ_cons x y l : occ x (y :: l) = ((if dec y x then 1 else 0) + occ x l)%nat.
+  Proof. unfold occ. cbn [count_occ]. destruct (dec y x); lia. Qed.
+  Lemma occ_app x l1 l2 : occ x (l1 ++ l2) = (occ x l1 + occ x l2)%nat.
+  Proof. apply count_occ_app. Qed.
+  Lemma occ_In x l : In x l <-> (1 <= occ x l)%nat.
+  Proof. unfold occ. rewrite (count_occ_In dec). lia. Qed.
+  Lemma occ_notin x l : ~ In x l -> occ x l = 0%nat.
+  Proof. intros H. apply count_occ_not_In. exact H. Qed.
+  Lemma occ_NoDup l : NoDup l <-> forall x, (occ x l <= 1)%nat.
+  Proof. apply NoDup_count_occ. Qed.
+  Lemma occ_rev x l : occ x (rev l) = occ x l.
+  Proof. induction l; cbn [rev]; [reflexivity|]. rewrite occ_app, IHl, !occ_cons, occ_nil. lia. Qed.
+  Lemma occ_flat_map {Y} (f : Y -> list X) x l :
+    occ x (flat_map f l) = fold_right (fun y n => (occ x (f y) + n)%nat) 0%nat l.
+  Proof. induction l; cbn [flat_map fold_right]; [reflexivity|]. rewrite occ_app, IHl. reflexivity. Qed.
+End Occ.
+Arguments occ : simpl never.
+
+Definition Ndec := N.eq_dec.
+Definition pdec : forall a b : bid * conn, {a = b} + {a <> b}.
+Proof. decide equality; try apply N.eq_dec. decide equality; apply N.eq_dec. Defined.
+Notation occN := (occ Ndec).
+Notation occP := (occ pdec).
+
+Lemma occP_map_pair i j c l :
+  occP (i, c) (map (pair j) l) = if bid_eqb i j then occN c l else 0%nat.
+Proof.
+  induction l as [|y l IH]; cbn [map]; [rewrite !occ_nil; destruct (bid_eqb i j); reflexivity|].
+  rewrite !occ_cons, IH. destruct (bid_eqb i j) eqn:E.
+  - apply bid_eqb_eq in E; subst. destruct (pdec (j, y) (j, c)) as [e|n], (Ndec y c) as [e'|n']; try lia.
+    + inversion e; contradiction. + subst; contradiction.
+  - apply bid_eqb_neq in E. destruct (pdec (j, y) (i, c)) as [e|n]; [inversion e; subst; contradiction|lia].
+Qed.
+
+Lemma split_last_spec {A} (l : list A) :
+  match split_last l with None => l = [] | Some (r, x) => l = r ++ [x] end.
+Proof.
+  induction l as [|x l IH]; cbn [split_last]; [reflexivity|].
+  destruct (split_last l) as [[r y]|]; subst; reflexivity.
+Qed.
+
+(* ------------------------------------------------------------------ association lists of connections *)
+Definition keys (b : blk) : list conn := map fst b.(b_conns).
+Definition inuse_l (cs : list (conn * bool)) : list conn := map fst (filter snd cs).
+Definition inuse_keys (b : blk) : list conn := inuse_l b.(b_conns).
+
+Lemma alookup_keys c (cs : list (conn * bool)) :
+  (1 <= occN c (map fst cs))%nat -> occN c (inuse_l cs) = 0%nat -> alookup c cs = Some false.
+Proof.
+  induction cs as [|[k v] cs IH]; cbn [map fst alookup]; [rewrite occ_nil; lia|].
+  unfold inuse_l. cbn [filter snd]. rewrite occ_cons. destruct (c =? k)%N eqn:E.
+  - apply N.eqb_eq in E; subst. destruct v; [|reflexivity].
+    cbn [map fst]. rewrite occ_cons. destruct (Ndec k k); [lia|contradiction].
+  - apply N.eqb_neq in E. destruct (Ndec k c); [subst; contradiction|].
+    intros H1 H2. apply IH; [lia|]. destruct v; [|exact H2].
+    cbn [map fst] in H2. rewrite occ_cons in H2. unfold inuse_l. lia.
+Qed.
+Lemma alookup_In_keys c (cs : list (conn * bool)) v : alookup c cs = Some v -> (1 <= occN c (map fst cs))%nat.
+Proof.
+  induction cs as [|[k w] cs IH]; cbn [alookup map fst]; [discriminate|]. rewrite occ_cons.
+  destruct (c =? k)%N eqn:E; [apply N.eqb_eq in E; subst; destruct (Ndec k k); [lia|contradiction]|].
+  intros H. specialize (IH H). lia.
+Qed.
+Lemma keys_aset c v (cs : list (conn * bool)) : map fst (aset c v cs) = map fst cs.
+Proof.
+  induction cs as [|[k w] cs IH]; cbn [aset map fst]; [reflexivity|].
+  destruct (c =? k)%N; cbn [map fst]; [reflexivity|]. rewrite IH. reflexivity.
+Qed.
+Lemma inuse_aset_true c cs x : alookup c cs = Some false ->
+  occN x (inuse_l (aset c true cs)) = ((if Ndec c x then 1 else 0) + occN x (inuse_l cs))%nat.
+Proof.
+  induction cs as [|[k w] cs IH]; cbn [alookup aset]; [discriminate|].
+  destruct (c =? k)%N eqn:E.
+  - apply N.eqb_eq in E; subst. intros H; inversion H; subst. unfold inuse_l. cbn [filter snd map fst].
+    rewrite occ_cons. reflexivity.
+  - intros H. unfold inuse_l in *. cbn [filter snd]. destruct w; cbn [map fst]; rewrite ?occ_cons, (IH H); lia.
+Qed.
+Lemma inuse_aset_false c cs x : alookup c cs = Some true ->
+  (occN x (inuse_l (aset c false cs)) + (if Ndec c x then 1 else 0))%nat = occN x (inuse_l cs).
+Proof.
+  induction cs as [|[k w] cs IH]; cbn [alookup aset]; [discriminate|].
+  destruct (c =? k)%N eqn:E.
+  - apply N.eqb_eq in E; subst. intros H; inversion H; subst. unfold inuse_l. cbn [filter snd map fst].
+    rewrite occ_cons. lia.
+  - intros H. unfold inuse_l in *. cbn [filter snd]. destruct w; cbn [map fst]; rewrite ?occ_cons; specialize (IH H); lia.
+Qed.
+Lemma keys_aremove c (cs : list (conn * bool)) v x : alookup c cs = Some v ->
+  (occN x (map fst (aremove c cs)) + (if Ndec c x then 1 else 0))%nat = occN x (map fst cs).
+Proof.
+  induction cs as [|[k w] cs IH]; cbn [alookup aremove]; [discriminate|].
+  destruct (c =? k)%N eqn:E.
+  - apply N.eqb_eq in E; subst. intros _. cbn [map fst]. rewrite occ_cons. lia.
+  - intros H. cbn [map fst]. rewrite !occ_cons. specialize (IH H). lia.
+Qed.
+Lemma inuse_aremove_false c cs : alookup c cs = Some false -> inuse_l (aremove c cs) = inuse_l cs.
+Proof.
+  induction cs as [|[k w] cs IH]; cbn [alookup aremove]; [discriminate|].
+  destruct (c =? k)%N eqn:E.
+  - intros H; inversion H; subst. reflexivity.
+  - intros H. unfold inuse_l in *. cbn [filter snd]. destruct w; cbn [map fst]; rewrite (IH H); reflexivity.
+Qed.
+Lemma inuse_app_false cs c : inuse_l (cs ++ [(c, false)]) = inuse_l cs.
+Proof. unfold inuse_l. rewrite filter_app. cbn. rewrite app_nil_r. reflexivity. Qed.
+Lemma occ_remove1 c l x : In c l -> (occN x (remove1 c l) + (if Ndec c x then 1 else 0))%nat = occN x l.
+Proof.
+  induction l as [|y l IH]; cbn [remove1 In]; [tauto|].
+  destruct (c =? y)%N eqn:E.
+  - apply N.eqb_eq in E; subst. intros _. rewrite occ_cons. lia.
+  - apply N.eqb_neq in E. intros [->|H]; [contradiction|]. rewrite !occ_cons. specialize (IH H). lia.
+Qed.
+Lemma occ_aremove_fst {A} c (l : list (N * A)) x :
+  (occN x (map fst (aremove c l)) <= occN x (map fst l))%nat /\
+  (forall v, alookup c l = Some v -> (occN x (map fst (aremove c l)) + (if Ndec c x then 1 else 0))%nat = occN x (map fst l)).
+Proof.
+  induction l as [|[k w] l [IH1 IH2]]; cbn [alookup aremove map fst]; [split; [lia|discriminate]|].
+  destruct (c =? k)%N eqn:E.
+  - apply N.eqb_eq in E; subst. rewrite occ_cons. split; [lia|intros; lia].
+  - cbn [map fst]. rewrite !occ_cons. split; [lia|]. intros v H. specialize (IH2 v H). lia.
+Qed.
+
+(* ------------------------------------------------------------------ the list of blocks *)
+Fixpoint sumZ (w : blk -> Z) (bs : list blk) : Z :=
+  match bs with [] => 0 | b :: r => w b + sumZ w r end.
+
+Lemma find_bid_id i bs b : find_bid i bs = Some b -> b.(b_id) = i.
+Proof.
+  induction bs as [|b' r IH]; cbn [find_bid]; [discriminate|].
+  destruct (bid_eqb i (b_id b')) eqn:E; [|exact IH].
+  intros H; inversion H; subst. apply bid_eqb_eq in E. auto.
+Qed.
+Lemma find_bid_In i bs b : find_bid i bs = Some b -> In b bs.
+Proof.
+  induction bs as [|b' r IH]; cbn [find_bid]; [discriminate|].
+  destruct (bid_eqb i (b_id b')); [intros H; inversion H; left; reflexivity|intros H; right; auto].
+Qed.
+Lemma find_bid_none i bs : find_bid i bs = None -> forall b, In b bs -> b.(b_id) <> i.
+Proof.
+  induction bs as [|b' r IH]; cbn [find_bid]; [intros _ b []|].
+  destruct (bid_eqb i (b_id b')) eqn:E; [discriminate|]. apply bid_eqb_neq in E.
+  intros H b [->|Hb]; [congruence|apply IH; assumption].
+Qed.
+Lemma upd_blk_none b' bs : find_bid b'.(b_id) bs = None -> upd_blk b' bs = bs.
+Proof.
+  induction bs as [|b r IH]; cbn [find_bid upd_blk]; [reflexivity|].
+  destruct (bid_eqb (b_id b') (b_id b)); [discriminate|]. intros H. rewrite (IH H). reflexivity.
+Qed.
+Lemma sumZ_upd w b' bs b : find_bid b'.(b_id) bs = Some b -> sumZ w (upd_blk b' bs) = sumZ w bs - w b + w b'.
+Proof.
+  induction bs as [|b0 r IH]; cbn [find_bid upd_blk]; [discriminate|].
+  destruct (bid_eqb (b_id b') (b_id b0)); intros H; cbn [sumZ].
+  - inversion H; subst. lia.
+  - rewrite (IH H). lia.
+Qed.
+Lemma remove_bid_none i bs : find_bid i bs = None -> remove_bid i bs = bs.
+Proof.
+  induction bs as [|b r IH]; cbn [find_bid remove_bid]; [reflexivity|].
+  destruct (bid_eqb i (b_id b)); [discriminate|]. intros H. rewrite (IH H). reflexivity.
+Qed.
+Lemma sumZ_remove w i bs b : find_bid i bs = Some b -> sumZ w (remove_bid i bs) = sumZ w bs - w b.
+Proof.
+  induction bs as [|b0 r IH]; cbn [find_bid remove_bid]; [discriminate|].
+  destruct (bid_eqb i (b_id b0)); intros H; cbn [sumZ].
+  - inversion H; subst. lia.
+  - rewrite (IH H). lia.
+Qed.
+Lemma sumZ_app w l1 l2 : sumZ w (l1 ++ l2) = sumZ w l1 + sumZ w l2.
+Proof. induction l1; cbn [app sumZ]; lia. Qed.
+Lemma sumZ_move_end w i bs : sumZ w (move_end i bs) = sumZ w bs.
+Proof.
+  unfold move_end. destruct (find_bid i bs) as [b|] eqn:E; [|reflexivity].
+  rewrite sumZ_app, (sumZ_remove _ _ _ _ E). cbn [sumZ]. lia.
+Qed.
+Lemma sumZ_move_front w i bs : sumZ w (move_front i bs) = sumZ w bs.
+Proof.
+  unfold move_front. destruct (find_bid i bs) as [b|] eqn:E; [|reflexivity].
+  cbn [sumZ]. rewrite (sumZ_remove _ _ _ _ E). lia.
+Qed.
+Lemma sumZ_ext w1 w2 bs : (forall b, In b bs -> w1 b = w2 b) -> sumZ w1 bs = sumZ w2 bs.
+Proof.
+  induction bs as [|b r IH]; intros H; cbn [sumZ]; [reflexivity|].
+  rewrite (H b (or_introl eq_refl)), IH; [reflexivity|]. intros; apply H; right; assumption.
+Qed.
+Lemma sumZ_nonneg w bs : (forall b, In b bs -> 0 <= w b) -> 0 <= sumZ w bs.
+Proof.
+  induction bs as [|b r IH]; intros H; cbn [sumZ]; [lia|].
+  pose proof (H b (or_introl eq_refl)). assert (0 <= sumZ w r) by (apply IH; intros; apply H; right; assumption). lia.
+Qed.
+Lemma sumZ_In_le w bs b : (forall b, In b bs -> 0 <= w b) -> In b bs -> w b <= sumZ w bs.
+Proof.
+  induction bs as [|b0 r IH]; intros H Hin; [destruct Hin|]. destruct Hin as [->|Hb]; cbn [sumZ].
+  - assert (0 <= sumZ w r) by (apply sumZ_nonneg; intros; apply H; right; assumption). lia.
+  - pose proof (H b0 (or_introl eq_refl)). assert (w b <= sumZ w r) by (apply IH; [intros; apply H; right|]; assumption). lia.
+Qed.
+
+(* sum restricted to the block(s) whose id is j *)
+Definition at_id (j : bid) (w : blk -> Z) (b : blk) : Z := if bid_eqb j b.(b_id) then w b else 0.
+Lemma sumZ_at_unique j w bs b :
+  NoDup (map b_id bs) -> In b bs -> b.(b_id) = j -> sumZ (at_id j w) bs = w b.
+Proof.
+  induction bs as [|b0 r IH]; intros ND Hin E; [destruct Hin|]. destruct Hin as [->|Hb]; cbn [sumZ map] in *; inversion ND; subst.
+  - unfold at_id at 1. rewrite bid_eqb_refl.
+    assert (sumZ (at_id (b_id b) w) r = 0).
+    { clear IH ND. induction r as [|b1 r IH]; cbn [sumZ]; [reflexivity|].
+      unfold at_id at 1. destruct (bid_eqb (b_id b) (b_id b1)) eqn:E1.
+      - apply bid_eqb_eq in E1. exfalso. apply H1. rewrite E1. left; reflexivity.
+      - rewrite IH; [lia| |].
+        + intros Hin. apply H1. right; exact Hin.
+        + inversion H2; assumption. }
+    lia.
+  - unfold at_id at 1. destruct (bid_eqb (b_id b) (b_id b0)) eqn:E1.
+    + apply bid_eqb_eq in E1. exfalso. apply H1. rewrite <- E1. apply in_map. exact Hb.
+    + rewrite (IH H2 Hb eq_refl). lia.
+Qed.
+Lemma sumZ_at_none j w bs : (forall b, In b bs -> b.(b_id) <> j) -> sumZ (at_id j w) bs = 0.
+Proof.
+  induction bs as [|b r IH]; intros H; cbn [sumZ]; [reflexivity|].
+  unfold at_id at 1. destruct (bid_eqb j (b_id b)) eqn:E.
+  - apply bid_eqb_eq in E. exfalso. apply (H b (or_introl eq_refl)). auto.
+  - rewrite IH; [lia|]. intros; apply H; right; assumption.
+Qed.
+Lemma find_bid_unique bs b : NoDup (map b_id bs) -> In b bs -> find_bid b.(b_id) bs = Some b.
+Proof.
+  induction bs as [|b0 r IH]; intros ND Hin; [destruct Hin|]. destruct Hin as [->|Hb]; cbn [find_bid map] in *.
+  - rewrite bid_eqb_refl. reflexivity.
+  - inversion ND; subst. destruct (bid_eqb (b_id b) (b_id b0)) eqn:E; [|apply IH; assumption].
+    apply bid_eqb_eq in E. exfalso. apply H1. rewrite <- E. apply in_map. exact Hb.
+Qed.
+Lemma find_db_unique bs b : NoDup (map b_db bs) -> In b bs -> find_db (b_db b) bs = Some b.
+Proof.
+  induction bs as [|b0 r IH]; intros ND Hin; [destruct Hin|]. destruct Hin as [->|Hb]; cbn [find_db map] in *.
+  - rewrite N.eqb_refl. reflexivity.
+  - inversion ND; subst. destruct (b_db b =? b_db b0)%N eqn:E; [|apply IH; assumption].
+    apply N.eqb_eq in E. exfalso. apply H1. rewrite <- E. apply in_map. exact Hb.
+Qed.
+Lemma find_db_In d bs b : find_db d bs = Some b -> In b bs /\ b_db b = d.
+Proof.
+  induction bs as [|b' r IH]; cbn [find_db]; [discriminate|].
+  destruct (d =? b_db b')%N eqn:E.
+  - intros H; inversion H; subst. apply N.eqb_eq in E. split; [left; reflexivity|auto].
+  - intros H. destruct (IH H). split; [right|]; assumption.
+Qed.
+Lemma map_id_upd b' bs : map b_id (upd_blk b' bs) = map b_id bs.
+Proof.
+  induction bs as [|b r IH]; cbn [upd_blk map]; [reflexivity|].
+  destruct (bid_eqb (b_id b') (b_id b)) eqn:E; cbn [map]; [apply bid_eqb_eq in E; rewrite E; reflexivity|].
+  rewrite IH. reflexivity.
+Qed.
+Lemma In_upd_blk b' bs x : In x (upd_blk b' bs) -> x = b' \/ In x bs.
+Proof.
+  induction bs as [|b r IH]; cbn [upd_blk]; [tauto|].
+  destruct (bid_eqb (b_id b') (b_id b)); cbn [In]; intros [H|H]; auto.
+  destruct (IH H); auto.
+Qed.
+Lemma In_remove_bid i bs x : In x (remove_bid i bs) -> In x bs.
+Proof.
+  induction bs as [|b r IH]; cbn [remove_bid]; [tauto|].
+  destruct (bid_eqb i (b_id b)); cbn [In]; intros H; [right; exact H|]. destruct H; auto.
+Qed.
+Lemma remove_bid_perm i bs b : find_bid i bs = Some b -> Permutation bs (b :: remove_bid i bs).
+Proof.
+  induction bs as [|b0 r IH]; cbn [find_bid remove_bid]; [discriminate|].
+  destruct (bid_eqb i (b_id b0)); intros H.
+  - inversion H; subst. reflexivity.
+  - rewrite (IH H) at 1. apply perm_swap.
+Qed.
+Lemma move_end_perm i bs : Permutation (move_end i bs) bs.
+Proof.
+  unfold move_end. destruct (find_bid i bs) as [b|] eqn:E; [|reflexivity].
+  rewrite (remove_bid_perm _ _ _ E) at 2. symmetry. apply Permutation_cons_append.
+Qed.
+Lemma move_front_perm i bs : Permutation (move_front i bs) bs.
+Proof.
+  unfold move_front. destruct (find_bid i bs) as [b|] eqn:E; [|reflexivity].
+  symmetry. apply remove_bid_perm. exact E.
+Qed.
+
+(* ------------------------------------------------------------------ ownership invariant *)
+Definition zocc (c : N) (l : list N) : Z := Z.of_nat (occN c l).
+Definition zoccP (p : N * N * N) (l : list (N * N * N)) : Z := Z.of_nat (occP p l).
+Lemma zocc_nil c : zocc c [] = 0. Proof. reflexivity. Qed.
+Lemma zocc_cons c y l : zocc c (y :: l) = (if Ndec y c then 1 else 0) + zocc c l.
+Proof. unfold zocc. rewrite occ_cons. destruct (Ndec y c); lia. Qed.
+Lemma zocc_app c l1 l2 : zocc c (l1 ++ l2) = zocc c l1 + zocc c l2.
+Proof. unfold zocc. rewrite occ_app. lia. Qed.
+Lemma zocc_nonneg c l : 0 <= zocc c l. Proof. unfold zocc. lia. Qed.
+Lemma zocc_rev c l : zocc c (rev l) = zocc c l. Proof. unfold zocc. rewrite occ_rev. reflexivity. Qed.
+Lemma zoccP_nil p : zoccP p [] = 0. Proof. reflexivity. Qed.
+Lemma zoccP_cons p y l : zoccP p (y :: l) = (if pdec y p then 1 else 0) + zoccP p l.
+Proof. unfold zoccP. rewrite occ_cons. destruct (pdec y p); lia. Qed.
+Lemma zoccP_app p l1 l2 : zoccP p (l1 ++ l2) = zoccP p l1 + zoccP p l2.
+Proof. unfold zoccP. rewrite occ_app. lia. Qed.
+Lemma zoccP_nonneg p l : 0 <= zoccP p l. Proof. unfold zoccP. lia. Qed.
+Lemma zoccP_map_pair i j c l : zoccP (i, c) (map (pair j) l) = if bid_eqb i j then zocc c l else 0.
+Proof. unfold zoccP, zocc. rewrite occP_map_pair. destruct (bid_eqb i j); reflexivity. Qed.
+Arguments zocc : simpl never.
+Arguments zoccP : simpl never.
+
+Definition wk_res (w : tid * wk) : list conn := match snd w with WAcq => [] | WPrune acc => acc end.
+Definition wres (b : blk) : list conn := flat_map wk_res b.(b_waiters).
+(* connections of a block that are in its dict but neither idle on the stack, nor lent, nor
+   reserved by a suspended prune task: >= what is reserved for it in the ready queue *)
+Definition slack (c : conn) (b : blk) : Z :=
+  zocc c (keys b) - zocc c b.(b_stack) - zocc c (inuse_keys b) - zocc c (wres b).
+Definition kont_res (k : kont) : list (bid * conn) :=
+  match k with
+  | KDiscStart i c _ _ => [(i, c)]
+  | KPruneWake _ i acc _ => map (pair i) acc
+  | _ => []
+  end.
+Definition kres (l : list kont) : list (bid * conn) := flat_map kont_res l.
+Definition kont_limbo (k : kont) : list conn :=
+  match k with KTransStart _ c _ => [c] | KConnWake _ _ (Some c) _ => [c] | _ => [] end.
+(* open connections that are in no block's dict *)
+Definition limbo (s : pool) : list conn :=
+  flat_map kont_limbo s.(ready) ++ map (fun e : N * (conn * after_disc) => fst (snd e)) s.(infl_disc).
+(* connects promised to block j: scheduled, in flight, completed-but-unprocessed, or behind a transfer *)
+Definition kont_pipe (j : bid) (k : kont) : Z :=
+  match k with
+  | KConnStart i => b2z (bid_eqb j i)
+  | KConnWake _ i _ _ => b2z (bid_eqb j i)
+  | KTransStart _ _ to => b2z (bid_eqb j to)
+  | KDiscWake _ _ (ADTransfer to) _ => b2z (bid_eqb j to)
+  | _ => 0
+  end.
+Fixpoint sumK (f : kont -> Z) (l : list kont) : Z := match l with [] => 0 | k :: r => f k + sumK f r end.
+Lemma sumK_app f l1 l2 : sumK f (l1 ++ l2) = sumK f l1 + sumK f l2.
+Proof. induction l1; cbn [app sumK]; lia. Qed.
+Fixpoint sumL {A} (f : A -> Z) (l : list A) : Z := match l with [] => 0 | k :: r => f k + sumL f r end.
+Lemma sumL_app {A} (f : A -> Z) l1 l2 : sumL f (l1 ++ l2) = sumL f l1 + sumL f l2.
+Proof. induction l1; cbn [app sumL]; lia. Qed.
+Definition npipe (j : bid) (s : pool) : Z :=
+  sumK (kont_pipe j) s.(ready) + sumL (fun e : N * bid => b2z (bid_eqb j (snd e))) s.(infl_conn)
+  + sumL (fun e : N * (conn * after_disc) =>
+            match snd (snd e) with ADTransfer to => b2z (bid_eqb j to) | _ => 0 end) s.(infl_disc).
+
+Definition bdec : forall a b : N * N, {a = b} + {a <> b}.
+Proof. decide equality; apply N.eq_dec. Defined.
+Definition zoccB (j : N * N) (l : list (N * N)) : Z := Z.of_nat (occ bdec j l).
+Lemma zoccB_nil j : zoccB j [] = 0. Proof. reflexivity. Qed.
+Lemma zoccB_cons j y l : zoccB j (y :: l) = b2z (bid_eqb j y) + zoccB j l.
+Proof.
+  unfold zoccB. rewrite occ_cons. destruct (bdec y j) as [e|n].
+  - subst. rewrite bid_eqb_refl. cbn [b2z]. lia.
+  - assert (E : bid_eqb j y = false) by (apply bid_eqb_neq; congruence). rewrite E. cbn [b2z]. lia.
+Qed.
+Lemma zoccB_nonneg j l : 0 <= zoccB j l. Proof. unfold zoccB. lia. Qed.
+Arguments zoccB : simpl never.
+
+(* The hands: connections (h), open connections outside every dict (hl) and connects promised
+   to a block (hp) that the code holds in local variables in the middle of an atomic section. *)
+Record Own (h : list (bid * conn)) (hl : list conn) (hp : list bid) (s : pool) : Prop := mkOwn {
+  own_blk : forall j c, zoccP (j, c) (kres s.(ready)) + zoccP (j, c) h <= sumZ (at_id j (slack c)) s.(blocks);
+  own_open : forall c, sumZ (fun b => zocc c (keys b)) s.(blocks) + zocc c (limbo s) + zocc c hl <= zocc c s.(g_open);
+  own_nodup : NoDup s.(g_open);
+  own_fresh : forall c, In c s.(g_open) -> (c < s.(next_conn))%N;
+  own_held : forall c, zocc c (map fst s.(g_held)) <= sumZ (fun b => zocc c (inuse_keys b)) s.(blocks);
+  own_ids : NoDup (map b_id s.(blocks));
+  own_dbs : NoDup (map b_db s.(blocks));
+  own_bidfresh : forall b, In b s.(blocks) -> (snd b.(b_id) < s.(next_bid))%N;
+  own_pend : forall j, npipe j s + zoccB j hp <= sumZ (at_id j b_pending) s.(blocks) }.
+
+(* dropping things from the hands is always allowed (connections become orphans) *)
+Lemma Own_weaken h hl hp h' hl' hp' s :
+  (forall p, zoccP p h' <= zoccP p h) -> (forall c, zocc c hl' <= zocc c hl) ->
+  (forall j, zoccB j hp' <= zoccB j hp) -> Own h hl hp s -> Own h' hl' hp' s.
+Proof.
+  intros H1 H2 H3 [o1 o2 o3 o4 o5 o6 o7 o8 o10]. split; auto.
+  - intros j c. specialize (o1 j c). specialize (H1 (j, c)). lia.
+  - intros c. specialize (o2 c). specialize (H2 c). lia.
+  - intros j. specialize (o10 j). specialize (H3 j). lia.
+Qed.
+
+(* a state that differs from s only in fields the ownership invariant does not read *)
+Definition sameO (s s' : pool) : Prop :=
+  s'.(blocks) = s.(blocks) /\ s'.(ready) = s.(ready) /\ s'.(infl_conn) = s.(infl_conn) /\
+  s'.(infl_disc) = s.(infl_disc) /\ s'.(g_open) = s.(g_open) /\ s'.(g_held) = s.(g_held) /\
+  s'.(next_conn) = s.(next_conn) /\ s'.(next_bid) = s.(next_bid).
+Lemma Own_same h hl hp s s' : sameO s s' -> Own h hl hp s -> Own h hl hp s'.
+Proof.
+  intros (e1 & e2 & e3 & e4 & e5 & e6 & e7 & e8) [o1 o2 o3 o4 o5 o6 o7 o8 o10].
+  split; unfold limbo, npipe in *; rewrite ?e1, ?e2, ?e3, ?e4, ?e5, ?e6, ?e7, ?e8; auto.
+Qed.
+Ltac sameO_tac := unfold sameO; cbn; repeat split; reflexivity.
+
+(* two versions of a block that the ownership invariant cannot tell apart *)
+Definition blk_same (b b' : blk) : Prop :=
+  b'.(b_id) = b.(b_id) /\ b'.(b_conns) = b.(b_conns) /\ b'.(b_stack) = b.(b_stack) /\
+  wres b' = wres b /\ b'.(b_acq) = b.(b_acq) /\ b'.(b_pending) = b.(b_pending).
+
+Lemma b_db_map bs : map b_db bs = map fst (map b_id bs).
+Proof. rewrite map_map. reflexivity. Qed.
+Lemma get_blk_id i s : (get_blk i s).(b_id) = i.
+Proof. unfold get_blk. destruct (find_bid i (blocks s)) eqn:E; [eapply find_bid_id; eauto|reflexivity]. Qed.
+Lemma get_blk_live i s b : find_bid i s.(blocks) = Some b -> get_blk i s = b.
+Proof. unfold get_blk. intros ->. reflexivity. Qed.
+Lemma get_blk_stale i s : find_bid i s.(blocks) = None -> get_blk i s = stale_blk i.
+Proof. unfold get_blk. intros ->. reflexivity. Qed.
+
+(* generic: replace block i by b' *)
+Lemma Own_upd_gen h hl hp h' hl' hp' s i b' :
+  Own h hl hp s -> b'.(b_id) = i ->
+  (forall b, find_bid i s.(blocks) = Some b ->
+     (forall c, zoccP (i, c) h' - zoccP (i, c) h <= slack c b' - slack c b) /\
+     (forall c, zocc c (keys b') + zocc c hl' <= zocc c (keys b) + zocc c hl) /\
+     (forall c, zocc c (inuse_keys b) <= zocc c (inuse_keys b')) /\
+     zoccB i hp' - zoccB i hp <= b'.(b_pending) - b.(b_pending)) ->
+  (forall j, j <> i -> (forall c, zoccP (j, c) h' <= zoccP (j, c) h) /\ zoccB j hp' <= zoccB j hp) ->
+  (find_bid i s.(blocks) = None ->
+     (forall p, zoccP p h' <= zoccP p h) /\ (forall c, zocc c hl' <= zocc c hl) /\
+     (forall j, zoccB j hp' <= zoccB j hp)) ->
+  Own h' hl' hp' (upd b' s).
+Proof.
+  intros O Eid Hl Hoth Hnone.
+  destruct (find_bid i (blocks s)) as [b|] eqn:Ef.
+  - destruct (Hl b eq_refl) as (L1 & L2 & L3 & L5). clear Hl Hnone.
+    destruct O as [o1 o2 o3 o4 o5 o6 o7 o8 o10].
+    assert (Eb : b_id b = i) by (eapply find_bid_id; eauto).
+    assert (Ef' : find_bid (b_id b') (blocks s) = Some b) by (rewrite Eid; exact Ef).
+    split; unfold limbo, npipe, upd in *; cbn [blocks ready infl_conn infl_disc g_open g_held next_conn next_bid set_blocks].
+    + intros j c. rewrite (sumZ_upd _ _ _ _ Ef'). specialize (o1 j c). unfold at_id at 2 3. rewrite Eid, Eb.
+      destruct (bid_eqb j i) eqn:E.
+      * apply bid_eqb_eq in E; subst j. specialize (L1 c). lia.
+      * apply bid_eqb_neq in E. destruct (Hoth j E) as [Hj _]. specialize (Hj c). lia.
+    + intros c. rewrite (sumZ_upd _ _ _ _ Ef'). specialize (o2 c). specialize (L2 c). lia.
+    + exact o3.
+    + exact o4.
+    + intros c. rewrite (sumZ_upd _ _ _ _ Ef'). specialize (o5 c). specialize (L3 c). lia.
+    + rewrite map_id_upd. exact o6.
+    + rewrite b_db_map, map_id_upd, <- b_db_map. exact o7.
+    + intros x Hx. apply In_upd_blk in Hx as [->|Hx]; [|auto].
+      rewrite Eid, <- Eb. apply o8. eapply find_bid_In; eauto.
+    + intros j. rewrite (sumZ_upd _ _ _ _ Ef'). specialize (o10 j). unfold at_id at 2 3. rewrite Eid, Eb.
+      destruct (bid_eqb j i) eqn:E.
+      * apply bid_eqb_eq in E; subst j. lia.
+      * apply bid_eqb_neq in E. destruct (Hoth j E) as [_ Hj]. lia.
+  - destruct (Hnone eq_refl) as (W1 & W2 & W3).
+    eapply Own_weaken; [exact W1|exact W2|exact W3|].
+    eapply Own_same; [|exact O]. unfold sameO, upd. cbn. rewrite upd_blk_none; [repeat split; reflexivity|].
+    rewrite Eid. exact Ef.
+Qed.
+
+Lemma Own_upd_same h hl hp s i b' : Own h hl hp s -> blk_same (get_blk i s) b' -> Own h hl hp (upd b' s).
+Proof.
+  intros O (e1 & e2 & e3 & e4 & e5 & e6). rewrite get_blk_id in e1.
+  eapply Own_upd_gen; eauto.
+  - intros b Ef. rewrite (get_blk_live _ _ _ Ef) in *.
+    unfold slack, keys, inuse_keys. rewrite e2, e3, e4, e6. repeat split; lia.
+  - intros; split; intros; lia.
+  - intros _. repeat split; intros; lia.
+Qed.
+
+(* generic: append entries to the ready queue *)
+Lemma Own_append h hl hp h' hl' hp' s ks :
+  Own h hl hp s ->
+  (forall p, zoccP p (kres ks) + zoccP p h' <= zoccP p h) ->
+  (forall c, zocc c (flat_map kont_limbo ks) + zocc c hl' <= zocc c hl) ->
+  (forall j, sumK (kont_pipe j) ks + zoccB j hp' <= zoccB j hp) ->
+  Own h' hl' hp' (set_ready (s.(ready) ++ ks) s).
+Proof.
+  intros [o1 o2 o3 o4 o5 o6 o7 o8 o10] H1 H2 H3.
+  split; unfold limbo, npipe in *; cbn [blocks ready infl_conn infl_disc g_open g_held next_conn next_bid set_ready]; auto.
+  - intros j c. unfold kres in *. rewrite flat_map_app, zoccP_app. specialize (o1 j c). specialize (H1 (j, c)). lia.
+  - intros c. rewrite flat_map_app, !zocc_app. specialize (o2 c). specialize (H2 c). rewrite zocc_app in o2. lia.
+  - intros j. rewrite sumK_app. specialize (o10 j). specialize (H3 j). lia.
+Qed.
+
+(* permuting the OrderedDict does not matter *)
+Lemma sumZ_perm w l1 l2 : Permutation l1 l2 -> sumZ w l1 = sumZ w l2.
+Proof. induction 1; cbn [sumZ]; lia. Qed.
+Lemma Own_perm h hl hp s bs : Permutation bs s.(blocks) -> Own h hl hp s -> Own h hl hp (set_blocks bs s).
+Proof.
+  intros P [o1 o2 o3 o4 o5 o6 o7 o8 o10].
+  split; unfold limbo, npipe in *; cbn [blocks ready infl_conn infl_disc g_open g_held next_conn next_bid set_blocks]; auto.
+  - intros j c. rewrite (sumZ_perm _ _ _ P). auto.
+  - intros c. rewrite (sumZ_perm _ _ _ P). auto.
+  - intros c. rewrite (sumZ_perm _ _ _ P). auto.
+  - eapply Permutation_NoDup; [|exact o6]. apply Permutation_map. symmetry. exact P.
+  - eapply Permutation_NoDup; [|exact o7]. apply Permutation_map. symmetry. exact P.
+  - intros b Hb. apply o8. eapply Permutation_in; eauto.
+  - intros j. rewrite (sumZ_perm _ _ _ P). auto.
+Qed.
+
+Ltac own_same := eapply Own_same; [sameO_tac|].
+Ltac bsimp := cbn [b_conns b_stack b_waiters b_pending b_id b_acq b_nwait b_quota b_supp b_fails
+  set_b_conns set_b_stack set_b_waiters set_b_pending set_b_nwait set_b_quota set_b_supp set_b_fails set_b_acq].
+Ltac side := intros; unfold keys, inuse_keys; bsimp; try lia.
+
+Lemma flat_map_map {A B C} (f : B -> C) (g : A -> list B) l :
+  map f (flat_map g l) = flat_map (fun x => map f (g x)) l.
+Proof. induction l; cbn [flat_map map]; [reflexivity|]. rewrite map_app, IHl. reflexivity. Qed.
+Lemma kres_wake i w ok : kont_res (wake_kont i w ok) = map (pair i) (wk_res w).
+Proof. unfold wake_kont, wk_res. destruct (snd w); reflexivity. Qed.
+Lemma limbo_wake i w ok : kont_limbo (wake_kont i w ok) = [].
+Proof. unfold wake_kont. destruct (snd w); reflexivity. Qed.
+Lemma pipe_wake j i w ok : kont_pipe j (wake_kont i w ok) = 0.
+Proof. unfold wake_kont. destruct (snd w); reflexivity. Qed.
+
+Lemma slack_unfold c b : slack c b = zocc c (keys b) - zocc c b.(b_stack) - zocc c (inuse_keys b) - zocc c (wres b).
+Proof. reflexivity. Qed.
+
+(* Block._wakeup_next_waiter *)
+Lemma Own_wakeup_next h hl hp i s : Own h hl hp s -> Own h hl hp (wakeup_next i s).
+Proof.
+  intros O. unfold wakeup_next. destruct (b_waiters (get_blk i s)) as [|w ws] eqn:Ew; [exact O|].
+  unfold push.
+  eapply Own_append with (h := map (pair i) (wk_res w) ++ h) (hl := hl) (hp := hp).
+  - eapply Own_upd_gen; [exact O|cbn; apply get_blk_id| | |].
+    + intros b Ef. rewrite (get_blk_live _ _ _ Ef) in *. split; [|repeat split; side].
+      intros c. rewrite zoccP_app, zoccP_map_pair, bid_eqb_refl, !slack_unfold.
+      unfold keys, inuse_keys, wres. cbn [b_conns b_stack b_waiters set_b_waiters]. rewrite Ew.
+      cbn [flat_map]. rewrite zocc_app. lia.
+    + intros j Hj. split; [|lia]. intros c. rewrite zoccP_app, zoccP_map_pair.
+      assert (E : bid_eqb j i = false) by (apply bid_eqb_neq; exact Hj). rewrite E. lia.
+    + intros Ef. rewrite (get_blk_stale _ _ Ef) in Ew. discriminate.
+  - intros p. cbn [kres flat_map]. rewrite app_nil_r, kres_wake, zoccP_app. lia.
+  - intros c. cbn [flat_map]. rewrite limbo_wake. cbn [app]. rewrite zocc_nil. lia.
+  - intros j. cbn [sumK]. rewrite pipe_wake. lia.
+Qed.
+
+(* Block.abort_waiters *)
+Lemma Own_abort_waiters h hl hp i s : Own h hl hp s -> Own h hl hp (abort_waiters i s).
+Proof.
+  intros O. unfold abort_waiters.
+  set (b := get_blk i s). set (s1 := upd (set_b_waiters [] b) s).
+  change (ready s) with (ready s1).
+  eapply Own_append with (h := map (pair i) (wres b) ++ h) (hl := hl) (hp := hp).
+  - eapply Own_upd_gen; [exact O|cbn; apply get_blk_id| | |].
+    + intros b0 Ef. subst b. rewrite (get_blk_live _ _ _ Ef) in *. split; [|repeat split; side].
+      intros c. rewrite zoccP_app, zoccP_map_pair, bid_eqb_refl, !slack_unfold.
+      unfold keys, inuse_keys, wres. bsimp. cbn [flat_map]. rewrite zocc_nil. lia.
+    + intros j Hj. split; [|lia]. intros c. rewrite zoccP_app, zoccP_map_pair.
+      assert (E : bid_eqb j i = false) by (apply bid_eqb_neq; exact Hj). rewrite E. lia.
+    + intros Ef. subst b. rewrite (get_blk_stale _ _ Ef). cbn. repeat split; intros; lia.
+  - intros p. unfold kres. rewrite flat_map_concat_map, map_map, <- flat_map_concat_map.
+    erewrite flat_map_ext; [|intros w; apply kres_wake].
+    unfold wres. rewrite flat_map_map, zoccP_app. lia.
+  - intros c. rewrite flat_map_concat_map, map_map, <- flat_map_concat_map.
+    erewrite flat_map_ext; [|intros w; apply limbo_wake].
+    assert (E : forall (l : list (tid * wk)), flat_map (fun _ => @nil N) l = []) by (induction l; auto).
+    rewrite E, zocc_nil. lia.
+  - intros j. assert (E : forall l, sumK (kont_pipe j) (map (fun w => wake_kont i w false) l) = 0).
+    { induction l; cbn [map sumK]; [reflexivity|]. rewrite pipe_wake, IHl. reflexivity. }
+    rewrite E. lia.
+Qed.
+
+(* a connection in the hand goes (back) onto the stack: first half of Block.release *)
+Lemma Own_push_stack h hl hp i c s :
+  Own ((i, c) :: h) hl hp s ->
+  Own h hl hp (upd (set_b_stack ((get_blk i s).(b_stack) ++ [c]) (get_blk i s)) s).
+Proof.
+  intros O. eapply Own_upd_gen; [exact O|cbn; apply get_blk_id| | |].
+  - intros b Ef. rewrite (get_blk_live _ _ _ Ef) in *. split; [|repeat split; side].
+    intros c0. rewrite zoccP_cons, !slack_unfold. unfold keys, inuse_keys, wres.
+    cbn [b_conns b_stack b_waiters set_b_stack]. rewrite zocc_app, zocc_cons, zocc_nil.
+    destruct (pdec (i, c) (i, c0)) as [e|n], (Ndec c c0) as [e'|n']; try lia; exfalso; congruence.
+  - intros j Hj. split; [|lia]. intros c0. rewrite zoccP_cons.
+    destruct (pdec (i, c) (j, c0)) as [e|n]; [inversion e; subst; contradiction|lia].
+  - intros _. repeat split; intros; try lia. rewrite zoccP_cons. destruct (pdec (i, c) p); lia.
+Qed.
+Lemma Own_block_release h hl hp i c s : Own ((i, c) :: h) hl hp s -> Own h hl hp (block_release i c s).
+Proof. intros O. unfold block_release. apply Own_wakeup_next, Own_push_stack, O. Qed.
+
+(* Block.try_steal: the connection at the bottom of the stack moves into the hand *)
+Lemma Own_try_steal h hl hp i s c s' :
+  try_steal i s = (Some c, s') -> Own h hl hp s -> Own ((i, c) :: h) hl hp s'.
+Proof.
+  unfold try_steal. destruct (b_stack (get_blk i s)) as [|c0 r] eqn:Es; intros E O; inversion E; subst; clear E.
+  eapply Own_upd_gen; [exact O|cbn; apply get_blk_id| | |].
+  - intros b Ef. rewrite (get_blk_live _ _ _ Ef) in *. split; [|repeat split; side].
+    intros c0. rewrite zoccP_cons, !slack_unfold. unfold keys, inuse_keys, wres.
+    cbn [b_conns b_stack b_waiters set_b_stack]. rewrite Es, zocc_cons.
+    destruct (pdec (i, c) (i, c0)) as [e|n], (Ndec c c0) as [e'|n']; try lia; exfalso; congruence.
+  - intros j Hj. split; [|lia]. intros c0. rewrite zoccP_cons.
+    destruct (pdec (i, c) (j, c0)) as [e|n]; [inversion e; subst; contradiction|lia].
+  - intros Ef. rewrite (get_blk_stale _ _ Ef) in Es. discriminate.
+Qed.
+Lemma try_steal_none i s s' : try_steal i s = (None, s') -> s' = s.
+Proof. unfold try_steal. destruct (b_stack (get_blk i s)); intros E; inversion E; reflexivity. Qed.
+
+Lemma zoccP_hand_other i c j c0 h : j <> i -> zoccP (j, c0) ((i, c) :: h) = zoccP (j, c0) h.
+Proof. intros H. rewrite zoccP_cons. destruct (pdec (i, c) (j, c0)) as [e|n]; [inversion e; subst; contradiction|lia]. Qed.
+Lemma zoccP_hand_same i c c0 h : zoccP (i, c0) ((i, c) :: h) = (if Ndec c c0 then 1 else 0) + zoccP (i, c0) h.
+Proof.
+  rewrite zoccP_cons. destruct (pdec (i, c) (i, c0)) as [e|n], (Ndec c c0) as [e'|n']; try lia; exfalso; congruence.
+Qed.
+Lemma zoccP_hand_le p q h : zoccP p h <= zoccP p (q :: h).
+Proof. rewrite zoccP_cons. destruct (pdec q p); lia. Qed.
+Lemma zocc_hand_le c q l : zocc c l <= zocc c (q :: l).
+Proof. rewrite zocc_cons. destruct (Ndec q c); lia. Qed.
+Lemma zoccB_hand_le j q l : zoccB j l <= zoccB j (q :: l).
+Proof. rewrite zoccB_cons. destruct (bid_eqb j q); cbn [b2z]; lia. Qed.
+
+Lemma Own_set_cur h hl hp v s : Own h hl hp s -> Own h hl hp (set_cur v s).
+Proof. apply Own_same. sameO_tac. Qed.
+Lemma Own_set_starving h hl hp v s : Own h hl hp s -> Own h hl hp (set_starving v s).
+Proof. apply Own_same. sameO_tac. Qed.
+Lemma Own_set_waitlist h hl hp v s : Own h hl hp s -> Own h hl hp (set_waitlist v s).
+Proof. apply Own_same. sameO_tac. Qed.
+Lemma Own_set_overq h hl hp v s : Own h hl hp s -> Own h hl hp (set_overq v s).
+Proof. apply Own_same. sameO_tac. Qed.
+Lemma Own_set_nacq h hl hp v s : Own h hl hp s -> Own h hl hp (set_nacq v s).
+Proof. apply Own_same. sameO_tac. Qed.
+Lemma Own_set_tick_armed h hl hp v s : Own h hl hp s -> Own h hl hp (set_tick_armed v s).
+Proof. apply Own_same. sameO_tac. Qed.
+Lemma Own_set_gc_reqs h hl hp v s : Own h hl hp s -> Own h hl hp (set_gc_reqs v s).
+Proof. apply Own_same. sameO_tac. Qed.
+Lemma Own_set_gc_timers h hl hp v s : Own h hl hp s -> Own h hl hp (set_gc_timers v s).
+Proof. apply Own_same. sameO_tac. Qed.
+Lemma Own_set_gtasks h hl hp v s : Own h hl hp s -> Own h hl hp (set_gtasks v s).
+Proof. apply Own_same. sameO_tac. Qed.
+Lemma Own_set_outs h hl hp v s : Own h hl hp s -> Own h hl hp (set_outs v s).
+Proof. apply Own_same. sameO_tac. Qed.
+Lemma Own_emit h hl hp v s : Own h hl hp s -> Own h hl hp (emit v s).
+Proof. apply Own_same. sameO_tac. Qed.
+Lemma Own_fail h hl hp s : Own h hl hp s -> Own h hl hp (fail s).
+Proof. apply Own_same. sameO_tac. Qed.
+
+(* ------------------------------------------------------------------ liveness of a block id *)
+Definition live (i : bid) (s : pool) : Prop := find_bid i s.(blocks) <> None.
+Lemma find_bid_upd j b' bs : find_bid j (upd_blk b' bs) = None <-> find_bid j bs = None.
+Proof.
+  induction bs as [|b r IH]; cbn [upd_blk find_bid]; [tauto|].
+  destruct (bid_eqb (b_id b') (b_id b)) eqn:E; cbn [find_bid].
+  - apply bid_eqb_eq in E. rewrite E. destruct (bid_eqb j (b_id b)); [split; discriminate|tauto].
+  - destruct (bid_eqb j (b_id b)); [split; discriminate|exact IH].
+Qed.
+Lemma live_upd j b' s : live j s -> live j (upd b' s).
+Proof. unfold live, upd. cbn. rewrite find_bid_upd. auto. Qed.
+Lemma find_bid_In_live bs b : In b bs -> find_bid b.(b_id) bs <> None.
+Proof.
+  induction bs as [|b0 r IH]; intros Hin; [destruct Hin|]. cbn [find_bid].
+  destruct (bid_eqb (b_id b) (b_id b0)) eqn:E; [discriminate|].
+  destruct Hin as [->|Hb]; [rewrite bid_eqb_refl in E; discriminate|auto].
+Qed.
+Lemma live_perm j s bs : Permutation bs s.(blocks) -> live j s -> live j (set_blocks bs s).
+Proof.
+  unfold live. cbn. intros P H. destruct (find_bid j (blocks s)) as [b|] eqn:E; [|contradiction].
+  assert (Hb : In b bs) by (eapply Permutation_in; [symmetry; exact P|eapply find_bid_In; eauto]).
+  rewrite <- (find_bid_id _ _ _ E). apply find_bid_In_live. exact Hb.
+Qed.
+Lemma live_same j s s' : s'.(blocks) = s.(blocks) -> live j s -> live j s'.
+Proof. unfold live. intros ->. auto. Qed.
+Lemma live_get j s : live j s -> exists b, find_bid j s.(blocks) = Some b.
+Proof. unfold live. destruct (find_bid j (blocks s)) as [b|]; [eauto|contradiction]. Qed.
+
+(* the promise of a connect for block i moves from the hand into the block's pending counter *)
+Lemma Own_pending_inc h hl hp i s :
+  live i s -> Own h hl hp s ->
+  Own h hl (i :: hp) (upd (set_b_pending ((get_blk i s).(b_pending) + 1) (get_blk i s)) s).
+Proof.
+  intros L O. eapply Own_upd_gen; [exact O|cbn; apply get_blk_id| | |].
+  - intros b Ef. rewrite (get_blk_live _ _ _ Ef) in *. split; [|repeat split; side].
+    + intros c. rewrite !slack_unfold. unfold keys, inuse_keys, wres. bsimp. lia.
+    + rewrite zoccB_cons, bid_eqb_refl. cbn [b2z]. lia.
+  - intros j Hj. split; [intros; lia|]. rewrite zoccB_cons.
+    assert (E : bid_eqb j i = false) by (apply bid_eqb_neq; exact Hj). rewrite E. cbn [b2z]. lia.
+  - intros Ef. contradiction.
+Qed.
+
+(* BasePool._schedule_new_conn *)
+Lemma Own_sched_new_conn h hl hp i s : live i s -> Own h hl hp s -> Own h hl hp (sched_new_conn i s).
+Proof.
+  intros L O. unfold sched_new_conn, push.
+  set (s1 := set_cur _ _).
+  assert (O1 : Own h hl (i :: hp) s1) by (subst s1; apply Own_set_cur, Own_pending_inc; assumption).
+  set (s2 := if starving s1 then _ else s1).
+  assert (O2 : Own h hl (i :: hp) s2).
+  { subst s2. destruct (starving s1); [|exact O1]. apply Own_perm; [apply move_end_perm|exact O1]. }
+  eapply Own_append; [exact O2| | |].
+  - intros p. cbn. rewrite zoccP_nil. lia.
+  - intros c. cbn. rewrite zocc_nil. lia.
+  - intros j. cbn [sumK kont_pipe]. rewrite zoccB_cons. lia.
+Qed.
+Lemma live_sched_new_conn j i s : live j s -> live j (sched_new_conn i s).
+Proof.
+  intros L. unfold sched_new_conn, push. apply live_same with (s := if starving (set_cur (cur s + 1) (upd (set_b_pending (b_pending (get_blk i s) + 1) (get_blk i s)) s)) then set_blocks (move_end i (blocks (set_cur (cur s + 1) (upd (set_b_pending (b_pending (get_blk i s) + 1) (get_blk i s)) s)))) (set_cur (cur s + 1) (upd (set_b_pending (b_pending (get_blk i s) + 1) (get_blk i s)) s)) else (set_cur (cur s + 1) (upd (set_b_pending (b_pending (get_blk i s) + 1) (get_blk i s)) s))); [reflexivity|].
+  destruct (starving _).
+  - apply live_perm; [apply move_end_perm|]. apply live_same with (s := upd (set_b_pending (b_pending (get_blk i s) + 1) (get_blk i s)) s); [reflexivity|]. apply live_upd, L.
+  - apply live_same with (s := upd (set_b_pending (b_pending (get_blk i s) + 1) (get_blk i s)) s); [reflexivity|]. apply live_upd, L.
+Qed.
+
+(* BasePool._schedule_discard: the connection in the hand is reserved by the new task *)
+Lemma Own_sched_discard h hl hp i c p br s :
+  Own ((i, c) :: h) hl hp s -> Own h hl hp (sched_discard i c p br s).
+Proof.
+  intros O. unfold sched_discard, push. eapply Own_append; [exact O| | |].
+  - intros q. cbn [kres flat_map kont_res app]. rewrite !zoccP_cons, zoccP_nil. lia.
+  - intros c0. cbn. rewrite zocc_nil. lia.
+  - intros j. cbn. lia.
 Qed.
